@@ -871,7 +871,10 @@ func (app *App) calcActiveNodes(clusterState, clusterStateDcs map[string]*nodest
 			continue
 		}
 		if !node.PingOk {
-			if node.PingDubious || clusterStateDcs[host].PingOk {
+			// the two maps are collected one after the other while other loops refresh the host
+			// registry, so a host may be missing in the second one
+			dcsState := clusterStateDcs[host]
+			if node.PingDubious || (dcsState != nil && dcsState.PingOk) {
 				// we can't rely on ping and slave status if ping was dubious
 				if slices.Contains(oldActiveNodes, host) {
 					app.logger.Warn().Msgf("calc active nodes: %s is dubious or keep health lock in dcs, keeping active...", host)
